@@ -431,3 +431,10 @@ mod tests {
         assert_text2digits!("cinquenta e três bilhões e vinte milhões duzentos e quarenta e três mil setecentos e vinte e quatro", "53020243724");
     }
 }
+
+/// Verification hook (off by default): the words of this language's linking-word table, so that an external monitor can
+/// check that the table and its lookup agree.
+#[cfg(feature = "verif-hooks")]
+pub fn verif_linking_vocabulary() -> Vec<&'static str> {
+    INSIGNIFICANT.iter().copied().collect()
+}
